@@ -237,7 +237,7 @@ class C10(World):
             if kind == "replace_geometry":
                 op["geom"] = self._gen_geom(rng, cfg)
             if kind == "scaled":
-                op["scale"] = round(mx.rand_scale(rng), 4)
+                op["scale"] = round(mx.rand_scale(rng), 4) * (-1.0 if rng.random() < 0.2 else 1.0)
                 op["form"] = rng.choice(["float", "float", "list3_equal"])
             if kind == "scaled3":
                 s = [round(mx.rand_scale(rng), 3) for _ in range(3)]
@@ -345,16 +345,21 @@ class C10(World):
         scene = trimesh.Scene()
         model = Model("world")
         st = {"cfg": cfg, "last": "init"}
+        self._mine = []
         for step, op in enumerate(program["ops"]):
             ctx.step = step
             seed_lib_rng(op)
             k = op["op"]
             try:
                 if k == "read":
+                    st["first_names"] = bool(int(op.get("rs", 0)) & 1)
                     self._read(scene, model, op["obs"], st, ctx)
                     ctx.count("op:read")
                 else:
-                    scene, model = self._do(scene, model, op, st, ctx)
+                    try:
+                        scene, model = self._do(scene, model, op, st, ctx)
+                    finally:
+                        self._caller_reuses()
                     ctx.count("op:" + k)
                     st["last"] = k + (":" + str(op.get("cls")) if op.get("cls") else "")
                     ctx.event(step, k, len(model.geoms), len(model.forest.nodes))
@@ -466,8 +471,13 @@ class C10(World):
                 if len(np.asarray(got).reshape(-1, 3, 3)) != 0:
                     fail("triangles reported for a scene without meshes")
                 return
-            got = np.asarray(scene.triangles)
-            nodes = np.asarray(scene.triangles_node)
+            if st.get("first_names"):
+                # the names asked for before the triangles
+                nodes = np.asarray(scene.triangles_node)
+                got = np.asarray(scene.triangles)
+            else:
+                got = np.asarray(scene.triangles)
+                nodes = np.asarray(scene.triangles_node)
             if len(nodes) != len(got):
                 fail("triangles_node length differs")
             for n, p in pl.items():
@@ -567,6 +577,23 @@ class C10(World):
         ctx.finding("C10-area-volume-ignore-instance-scale", what)
 
     # ------------------------------------------------------------------ ops
+    def _handed(self, M):
+        """A matrix as a caller hands it over: a float64 array the caller keeps and goes on using (see _caller_reuses)."""
+        A = np.array(M, dtype=np.float64)
+        self._mine.append(A)
+        return A
+
+    def _caller_reuses(self):
+        # the caller's buffers are the caller's: it fills them with the next placement (instances built in a loop from one buffer)
+        for A in self._mine:
+            try:
+                A[:3, 3] += 7.25
+                A[:3, :3] = A[:3, :3][::-1]
+            except ValueError:
+                # the library froze the caller's own array: it is then at least not changed behind the scene's back
+                pass
+        self._mine = []
+
     def _pick_parent(self, model, idx, exclude=None):
         cands = [n for n in model.forest.nodes if n != exclude and (exclude is None or not model.forest.is_ancestor(exclude, n)) and model.forest.connected(n, model.forest.base)]
         if model.forest.base not in cands:
@@ -587,7 +614,7 @@ class C10(World):
             name = op["gname"]
             if name in model.geoms:
                 raise Inapplicable()
-            scene.add_geometry(g, node_name=node, geom_name=name, parent_node_name=parent, transform=np.array(op["matrix"]))
+            scene.add_geometry(g, node_name=node, geom_name=name, parent_node_name=parent, transform=self._handed(op["matrix"]))
             model.geoms[name] = rec
             f.update(node, parent, np.array(op["matrix"]), name)
             return scene, model
@@ -600,7 +627,7 @@ class C10(World):
             if node in f.nodes or node == f.base:
                 raise Inapplicable()
             parent = self._pick_parent(model, op["parent"])
-            scene.graph.update(frame_to=node, frame_from=parent, matrix=np.array(op["matrix"]), geometry=name)
+            scene.graph.update(frame_to=node, frame_from=parent, matrix=self._handed(op["matrix"]), geometry=name)
             f.update(node, parent, np.array(op["matrix"]), name)
             return scene, model
         if k == "edge":
@@ -608,7 +635,7 @@ class C10(World):
             if not cs:
                 raise Inapplicable()
             c = cs[op["i"] % len(cs)]
-            scene.graph.update(frame_to=c, frame_from=f.parent[c], matrix=np.array(op["matrix"]))
+            scene.graph.update(frame_to=c, frame_from=f.parent[c], matrix=self._handed(op["matrix"]))
             f.update(c, f.parent[c], np.array(op["matrix"]), None)
             return scene, model
         if k == "reparent":
@@ -620,7 +647,7 @@ class C10(World):
             if not parents:
                 raise Inapplicable()
             p = parents[op["j"] % len(parents)]
-            scene.graph.update(frame_to=c, frame_from=p, matrix=np.array(op["matrix"]))
+            scene.graph.update(frame_to=c, frame_from=p, matrix=self._handed(op["matrix"]))
             f.update(c, p, np.array(op["matrix"]), None)
             return scene, model
         if k == "remove_node":
@@ -673,7 +700,7 @@ class C10(World):
                 raise Inapplicable()
             parent = self._pick_parent(model, op["parent"])
             g = scene.geometry[src_name].copy()
-            scene.add_geometry(g, node_name=node, geom_name=name, parent_node_name=parent, transform=np.array(op["matrix"]))
+            scene.add_geometry(g, node_name=node, geom_name=name, parent_node_name=parent, transform=self._handed(op["matrix"]))
             rec = model.geoms[src_name]
             model.geoms[name] = {"kind": rec["kind"], "V": rec["V"].copy(), "F": None if rec["F"] is None else rec["F"].copy(), "units": rec.get("units")}
             if rec.get("dim"):
@@ -761,7 +788,8 @@ class C10(World):
         elif k == "scaled":
             s = op["scale"]
             result = scene.scaled(s if op["form"] == "float" else [s, s, s])
-            want = {n: (p[0], p[1] * s, p[2], p[3], *p[4:]) for n, p in src.items()}
+            # (a negative factor is a point reflection: placing a mesh by it re-winds its faces, as every mirrored placement does)
+            want = {n: (p[0], p[1] * s, p[2] if s > 0 or p[2] is None else np.asarray(p[2])[:, ::-1], p[3], *p[4:]) for n, p in src.items()}
         elif k == "scaled3":
             s = np.array(op["scale"], dtype=float)
             if not src:
@@ -821,7 +849,7 @@ class C10(World):
                         # (a node of the right operand named like the left operand's base frame is identified with it
                         #  by name: a naming hazard the statement does not speak about)
                         continue
-                    other.add_geometry(g, node_name=item["node"], geom_name=item["gname"], transform=np.array(item["matrix"]))
+                    other.add_geometry(g, node_name=item["node"], geom_name=item["gname"], transform=self._handed(item["matrix"]))
                     om.geoms[item["gname"]] = rec
                     om.forest.update(item["node"], "world", np.array(item["matrix"]), item["gname"])
                 omodel_pl = om.placements()
